@@ -15,6 +15,7 @@ RULE = (
     "power, u recovered from the codeword by the involution x.F^(xn), float64 textbook successive cancellation (recursive; cross-checked by brute-force marginalisation for N<=8) "
     "compared wherever every decision LLR exceeds 1e-3 in magnitude. Distinct = (configuration, message / LLR vector); non-trivial = non-zero message / random LLR vector."
     " Added after the seeded-fault rounds: deep trees at very high/low rate (N=512,1024), codes of one block length built in one process in a mixed order of k, the encoder's dtype option (float64/int64/int32)."
+    " Round 5: one polar-BP decoder object fed other codewords at the same batch size (rows reversed, next rows, first rows again) at |LLR| = 100, 25, 1."
 )
 ASSUMPTIONS = [
     "polar-BP is judged on the clean-decode clause only (iterative, not ML) and rejects interleaving by design (recorded as rejected)",
@@ -250,6 +251,21 @@ def run_unit(ctx, u):
                                 ctx.check(ok, "polar-BP clean decode", f"BeliefPropagationPolarDecoder|{cfgk},{regime}|polar-BP clean decode|wrong message", N=N, k=k, A=A, iters=iters)
                             except Exception as e:  # noqa: BLE001
                                 ctx.violation(f"BeliefPropagationPolarDecoder|{cfgk},{regime}|polar-BP clean decode|raised:{type(e).__name__}", N=N, k=k, error=str(e)[:200])
+                        # the same decoder object, same batch size, OTHER codewords in every row (rows reversed, then the next
+                        # rows of the codebook): nothing of the previous decode may survive into this one
+                        nb = min(8, len(sel))
+                        seqs = [(cw[:nb].flip(0), sel[:nb].flip(0))]
+                        if len(sel) >= 2 * nb:
+                            seqs.append((cw[nb : 2 * nb], sel[nb : 2 * nb]))
+                        seqs.append((cw[:nb], sel[:nb]))
+                        for A in (100.0, 25.0, 1.0):
+                            for cws, ms in seqs:
+                                try:
+                                    out = bp((1 - 2 * cws) * A)
+                                    ok = tuple(out.shape) == (nb, k) and bool((out == ms).all())
+                                    ctx.check(ok, "polar-BP clean decode", f"BeliefPropagationPolarDecoder|{cfgk},{regime}|polar-BP clean decode|wrong message after decoding other codewords with the same batch size", N=N, k=k, A=A, iters=iters)
+                                except Exception as e:  # noqa: BLE001
+                                    ctx.violation(f"BeliefPropagationPolarDecoder|{cfgk},{regime}|polar-BP clean decode|raised:{type(e).__name__}", N=N, k=k, error=str(e)[:200])
         if u["N"] in (8, 32) and u["k"] in (4, 16, 3):
             ctx.sample({"unit": u["unit"], "N": N, "k": k, "messages": int(len(msgs)), "info_positions": np.nonzero(exp_info)[0].tolist()[:16]})
         return
